@@ -165,10 +165,12 @@ func verifC07(kind int, collide bool, ops []int) {
 		ctx = WithTTL(ctx, time.Duration(ttlC), false)
 	}
 	// SkipRead concerns reads only: a Write or Delete made with such a context behaves as without it
-	if (op == 0 || op == 1 || op == 2) && verifBool("withSkipRead") {
+	// (the hash-collision variant C09 keeps the context dimension of Read only: collisions and context flags
+	// are independent, and the product doubles its run time)
+	if (op == 0 || (!collide && (op == 1 || op == 2))) && verifBool("withSkipRead") {
 		ctx = WithSkipRead(ctx)
 	}
-	if op == 2 && verifBool("deleteWithTTLContext") {
+	if !collide && op == 2 && verifBool("deleteWithTTLContext") {
 		ctx = WithTTL(ctx, time.Duration(verifInt64("ctxTTL")), false)
 	}
 	var newVal interface{}
